@@ -1,3 +1,19 @@
 package rules
 
+import (
+	"golang.org/x/tools/go/ssa"
+
+	"mosverif/core"
+)
+
 func runFixtures(prop, dir string, all bool) (lines []string, failures []string) { return nil, nil }
+
+// ResetMemos drops every per-program memo table (they are keyed by pointers into one loaded program and would
+// otherwise keep that program alive).
+func ResetMemos() {
+	engineMemo = map[*core.Ctx]*boundsEngine{}
+	scanLabelMemo = map[*ssa.Function]int64{}
+	protocolMemo = map[*core.Ctx]map[string][2]string{}
+	scanSummaryMemo = map[*ssa.Function][2]string{}
+	core.ResetMemos()
+}
